@@ -89,16 +89,27 @@ Definition entry_okb (n : nat) (M : gmap N N) : bool :=
 
 Definition init_okb (st : fstate) : bool :=
   let d := f_db st in
-  negb (d_failed d) && (d_deadline d =? 0) && is_launched d
-  && bool_decide (dom (d_view d) = dom (d_shards d)) && bool_decide (dom (f_hist st) = dom (d_shards d))
-  && forallb (λ kv, match f_hist st !! kv.1, d_view d !! kv.1 with
-                    | Some [e], Some c =>
-                      (s_cci c =? e.1) && bool_decide ((r_addr <$> s_reps c) = e.2)
-                      && entry_okb (length (sd_members kv.2)) e.2
-                      && bool_decide (size e.2 = length (sd_members kv.2))
+  negb (d_failed d) && (d_deadline d =? 0)
+  (* every defined shard has been launched *)
+  && forallb (λ kv, bool_decide (is_Some (f_hist st !! kv.1))) (map_to_list (d_shards d))
+  (* its history is the launch entry, Drummer's view shows exactly that entry *)
+  && forallb (λ kv, match kv.2, d_shards d !! kv.1, d_view d !! kv.1 with
+                    | [e], Some sd, Some c =>
+                      (s_cci c =? e.1) && bool_decide (r_addr <$> s_reps c = e.2)
+                      && entry_okb (length (sd_members sd)) e.2
                       && forallb (λ m, bool_decide (m.1 ∈ f_seen st)) (map_to_list e.2)
-                    | _, _ => false
-                    end) (map_to_list (d_shards d))
+                    | _, _, _ => false
+                    end) (map_to_list (f_hist st))
+  (* the view is keyed consistently and contains launched shards only *)
+  && forallb (λ kv, bool_decide (is_Some (f_hist st !! kv.1)) && (s_id kv.2 =? kv.1)
+                    && forallb (λ rn, (r_id rn.2 =? rn.1) && (r_shard rn.2 =? kv.1)) (map_to_list (s_reps kv.2)))
+             (map_to_list (d_view d))
+  (* every host record lists the shards the view places on it *)
+  && forallb (λ ah, (h_addr ah.2 =? ah.1)
+                    && forallb (λ kv, negb (bool_decide (ah.1 ∈ addrs_of (s_reps kv.2))) || bool_decide (kv.1 ∈ h_shards ah.2))
+                               (map_to_list (d_view d)))
+             (map_to_list (d_hosts d))
+  (* every replica on a host is a launched member that knows the launch entry; nothing is in flight *)
   && forallb (λ ah, forallb (λ kv, match f_hist st !! kv.1.1 with
                                    | Some [e] => is_member e.2 kv.1.2 && (lr_ver kv.2 =? e.1)
                                    | _ => false
